@@ -248,7 +248,10 @@ func C15(tier string) int {
 		return 2
 	}
 	base := filepath.Join(scratch, "base")
-	if out, err := generate(astool, shippedSpecs(), base, nil); err != nil {
+	if out, err := generate(astool, shippedSpecs(), base, nil); err != nil && strings.Contains(out, "no space left on device") {
+		fmt.Fprintln(os.Stderr, "C15: the scratch file system is full; no verdict:", tailStr(out, 300))
+		return 2
+	} else if err != nil {
 		res.Violate("reproduction|astool-fails", "astool fails on the shipped vocabularies: "+tailStr(out, 600), M{"check": "C15", "part": "reproduction"})
 		return res.Finish()
 	}
